@@ -75,6 +75,9 @@ def run(ctx):
         nc = unicodedata.normalize("NFKC", pw)
         for alt in {nf, nc} - {pw}:
             cases.append((canon, canon, alt, "nfkd-equivalent-partner", None))
+    for L in (12, 24):
+        for ph in pyref.extreme_phrases(rng, wl, L):
+            cases.append((ph, ph, rng.choice(["", "TREZOR", "é"]), "extreme-phrase-length/%d" % len(ph.encode()), None))
     impl = ctx.harness([("mnemonic.seed", t, pw) for t, _, pw, _, _ in cases])
     mod = ctx.model(["c02_seed %s %s" % (tx(t), tx(pw)) for t, _, pw, _, _ in cases], label="C02", timeout=1800)
     by_key = {}
